@@ -103,6 +103,8 @@ def run_gen():
     """T-gen: regenerate coq/gen/*.v from /repo's working tree.  Returns (ok, log)."""
     tool = ensure_gen_tool()
     rc, log = sh([tool, REPO, os.path.join(COQ, "gen")], timeout=120)
+    if rc not in (0, 3):
+        log = "GEN-FATAL (exit %d) " % rc + log
     return rc == 0, log
 
 
@@ -415,11 +417,16 @@ def prepare(ctx, need_harness=True, race=False):
             sys.exit(2)
         except TieBroken as e:
             info["tie_broken"] = str(e)
-    ok, log = run_gen()
-    info["gen_ok"], info["gen_log"] = ok, log
+    gok, glog = run_gen()
     ok, log = coq_make()
     info["make_ok"], info["make_log"] = ok, log[-6000:]
     info["obl"] = prop_obligations(ctx.prop)
+    # the generators are independent: one that no longer recognises its part of the source leaves a file that does not
+    # compile, so it concerns this property exactly when the property's theorems (or, later, its cases file) no longer
+    # compile; a failure of the tool itself concerns every property
+    info["gen_ok"] = gok or (info["obl"]["compiled"] and not glog.startswith("GEN-FATAL"))
+    info["gen_log"] = glog
+    info["gen_failed_elsewhere"] = (not gok) and info["gen_ok"]
     info["forbidden"] = forbidden_constructs()
     return info
 
